@@ -188,7 +188,7 @@ namespace
     if(u(0) != buf.size()) { err = "size field"; return false; }
     const std::uint64_t ne = u(4), ni = u(5), nes = u(6), nis = u(7), nsi = u(8), nsd = u(9);
     if(ne != nes || ni != nis) { err = "array counts differ from size counts"; return false; }
-    if(u(10) != 0) { err = "compression flag set"; return false; }
+    if(u(10) != 0x11) { err = "compression field is not compression_off (0x11)"; return false; }
     size_t k = 11;
     if((k + 2 * nes + 2 * nis + nsi) * 8 > buf.size()) { err = "header exceeds buffer"; return false; }
     std::vector<std::uint64_t> eb, ib;
@@ -260,6 +260,7 @@ namespace
     C xn = MK_::make((v + 1) % MK_::count(c.thorough), rnd, dn); // a second object for the two-in-one-stream test
     VFP fn = vfp(xn);
     SerialConfig cfg(false, false);
+    const Index fstride = c.thorough ? 4 : 16; // real files for every fstride-th variant
     // classification of the input w.r.t. the probed defect classes
     const bool no_arrays = !f0.has_data() && f0.e.empty() && f0.i.empty() && f0.sidx.size() >= 3 && kind.find("SparseMatrix") != std::string::npos && kind.find("Banded") == std::string::npos;
     const bool array_free = no_arrays && f0.sidx[0] > 0;      // rows*columns > 0
@@ -336,9 +337,9 @@ namespace
           c.count("stream_round_trips");
         });
       }
-      // ---- real files (every 4th variant)
-      if(v % 4 == 0 && kind.find("SparseVectorBlocked") != std::string::npos && hz.svb_file != 0) c.excluded("SparseVectorBlocked file write (reported once as finding)");
-      else if(v % 4 == 0) op(c, kind + " files", [&]{
+      // ---- real files (every fstride-th variant)
+      if(v % fstride == 0 && kind.find("SparseVectorBlocked") != std::string::npos && hz.svb_file != 0) c.excluded("SparseVectorBlocked file write (reported once as finding)");
+      else if(v % fstride == 0) op(c, kind + " files", [&]{
         const std::string fn1 = scratch_file("bin");
         x.write_out(FileMode::fm_binary, fn1);
         C y(FileMode::fm_binary, fn1);
@@ -370,7 +371,7 @@ namespace
         CX z; z.read_from(mode, s3);
         c.check(sem_equal(s0, sem(z), tol), kind + " " + ms + " cross-type read differs", [&]{ return sem(z).str() + " expected " + s0.str(); });
       }
-      if(v % 4 == 0)
+      if(v % fstride == 0)
       {
         const std::string fn1 = scratch_file("txt");
         x.write_out(mode, fn1);
@@ -536,7 +537,7 @@ int main(int argc, char** argv)
     "Non-trivial: every case (hashed by kind and the fingerprint of the built container); trivial containers without arrays are included on purpose.";
   spec.bounds_quick = "DenseVector len<=9; DVBlocked<2>,<3> blocks<=4; SparseVector size<=4 all index subsets (+4 insertion-built); SVBlocked<2> size<=3; DenseMatrix<=3x3; "
     "CSR all patterns<=3x3 and 3x4 (+entry-free 0..3 x 0..3, arrays-without-entries); BCSR<2,2>,<2,3> all block patterns<=2x2; Banded all offset subsets<=3x3; CSCR all used-row subsets x patterns<=2x3; "
-    "DistFileIO serial combined/ordered/sequence for section sizes 0..5 x 0..5; type pairs (double,u64),(float,u32),(double,u32); serialisation pairs {double,float}x{u64,u32}; modes: serialize/deserialize, fm_binary+own mode on stringstream/BinaryStream/file, checkpoint interface, fm_mtx, fm_exp";
+    "DistFileIO serial combined/ordered/sequence for section sizes 0..5 x 0..5; type pairs (double,u64),(float,u32),(double,u32); serialisation pairs {double,float}x{u64,u32}; modes: serialize/deserialize, fm_binary+own mode on stringstream/BinaryStream/file (files: every 16th variant, thorough every 4th), checkpoint interface, fm_mtx, fm_exp";
   spec.bounds_thorough = "as quick plus DenseVector len<=17, blocks<=7, SparseVector size<=5, DenseMatrix<=4x4, CSR 4x3 (4095 patterns) and 4x4 (65535 patterns), BCSR block patterns<=3x3, Banded 4x4, CSCR<=3x3";
   spec.assumptions = {
     "oracle = fingerprints (sizes, scalar_index, scalar_dt, every raw array) read directly from the containers; text modes compare dimensions, pattern and values",
